@@ -263,6 +263,41 @@ fn roundtrips(cx: &mut Cx, victim: NodeId, h: &Arc<Honest>, art: Art) {
                 cx.count("fault.restart_reload_coordinates");
                 match st.out { Ok(Ok(p)) if p == b2 => {} other => cx.violation("C09", "PublicKey/roundtrip/coordinates".into(), format!("{other:?}")) }
             });
+            // the coordinate form is not an encoding the octet decoder knows: x || y (192 octets) fed
+            // to from_bytes is a wrong length
+            {
+                let xy = [x.clone(), y.clone()].concat();
+                let xy2 = xy.clone();
+                cx.step(victim, "decode-foreign-encoding", StepOpts::default(), move || api::decode_reencode(suite, Art::Pk, &xy2), move |cx, st| {
+                    cx.eval(&[b"pk-xy-into-from_bytes", &xy], true);
+                    cx.count("fault.foreign_encoding_of_the_same_object");
+                    if let Ok(Ok(r)) = st.out { cx.violation("C09", "PublicKey/accepted_foreign_encoding/uncompressed-into-from_bytes".into(), format!("from_bytes accepted the 192-octet x || y form (re-encodes to {} octets)", r.len())); }
+                });
+            }
+            // forbidden coordinates: on the curve but outside the prime-order subgroup; off the
+            // curve; the point at infinity
+            {
+                use bls12_381_plus::G2Affine;
+                let mut cands: Vec<(&'static str, Vec<u8>)> = Vec::new();
+                for k in 1u8..=60 {
+                    let mut c = [0u8; 96]; c[0] = 0x80; c[95] = k;
+                    if let Some(p) = Option::<G2Affine>::from(G2Affine::from_compressed_unchecked(&c)) {
+                        if bool::from(p.is_torsion_free()) { continue; }
+                        cands.push(("outside-the-subgroup", p.to_uncompressed().to_vec()));
+                        break;
+                    }
+                }
+                { let mut off = [x.clone(), y.clone()].concat(); off[191] ^= 1; cands.push(("off-the-curve", off)); }
+                { let mut inf = vec![0u8; 192]; inf[0] = 0x40; cands.push(("infinity", inf)); }
+                for (name, xy) in cands {
+                    let xy2 = xy.clone();
+                    cx.step(victim, "reload-forbidden-coordinates", StepOpts::default(), move || { let xa: [u8; 96] = xy2[..96].try_into().unwrap(); let ya: [u8; 96] = xy2[96..].try_into().unwrap(); api::pk_from_coordinates(&xa, &ya) }, move |cx, st| {
+                        cx.eval(&[b"pk-forbidden-coordinates", name.as_bytes(), &xy], true);
+                        cx.count("fault.forbidden_coordinates");
+                        if let Ok(Ok(_)) = st.out { cx.violation("C09", format!("PublicKey/from_coordinates/forbidden_accepted/{name}"), format!("coordinates of a point {name} decode to a public key")); }
+                    });
+                }
+            }
             // coordinate-level strictness: a flipped bit in y must not yield the same key
             for bit in [0usize, 7, 95 * 8 + 7] {
                 let (mut x3, mut y3) = (x.clone(), y.clone());
